@@ -21,3 +21,9 @@ PROPS = {
     "C19": [r8.rule_R8, r8.rule_R8_probes, r8.rule_R2f, r4.rule_R4d],
     "C17": [r3.rule_R3a, r3.rule_R3b, r3.rule_R3c, r3.rule_R3d, r3.rule_R3e, r3.rule_allocator_discipline, r1.rule_R1a, r1.rule_R1b],
 }
+
+
+# rules that are independent of the C container idioms and are re-run on libyaep++ in the thorough tier
+CXX_OK = set(["rule_R1a", "rule_R3a", "rule_R3b", "rule_R3c", "rule_R3d", "rule_defaults", "rule_setters", "rule_parse_entry", "rule_token_intake",
+              "rule_undefined_typestate", "rule_R9", "rule_R12", "rule_R1c", "rule_births", "rule_T4", "rule_R13_marks", "rule_R11_switch", "rule_R11_sweep",
+              "rule_R6_flags", "rule_T1", "rule_T3", "rule_fixpoints", "rule_implicit_codes", "rule_costs_and_replay"])
